@@ -11,7 +11,8 @@ def handlers : List (String × (List String → Option String)) :=
     ("covout", Covout.handle),
     ("expr-accept", Expr.handle "expr-accept"), ("expr-eval", Expr.handle "expr-eval"), ("plotstr", Expr.handle "plotstr"),
     ("rng", Rng.handle),
-    ("agg", Aggregate.handle), ("cascade", Cascade.handle) ]
+    ("agg", Aggregate.handle), ("cascade", Cascade.handle),
+    ("constrain", Alloc.handle), ("hardcon", Alloc.handleHardcon), ("package", Alloc.handlePackageKind) ]
 
 /-- One request per line: `<kind> <args…>`; one canonical reply per line. -/
 def dispatch (line : String) : String :=
